@@ -1,4 +1,5 @@
 import collections
+import sys
 from math import prod
 from string import Template
 
@@ -8,6 +9,7 @@ try:
     from pyparsing import (
         CharsNotIn,
         Group,
+        Keyword,
         OneOrMore,
         Optional,
         Suppress,
@@ -142,7 +144,8 @@ class NETWriter(object):
         """
         cpt = self.tables[var_name]
         cpt_array = np.moveaxis(compat_fns.to_numpy(cpt, decimals=4), 0, -1)
-        cpt_string = str(cpt_array)
+        # str(cpt_array) would abbreviate arrays with more than 1000 elements with `...`
+        cpt_string = np.array2string(cpt_array, threshold=sys.maxsize)
         net_cpt_string = (
             cpt_string.replace("[", "(")
             .replace("]", ")")
@@ -402,7 +405,13 @@ class NETReader:
         """
         # Defining an expression for valid word
         word_expr = Word(alphanums + "_" + "-")("nodename")
-        name_expr = Suppress("node ") + word_expr + Optional(Suppress("{"))
+        # `node` must be a whole word followed by `<name> {`, so that names containing
+        # `node` (e.g. in the potentials) are not mistaken for node definitions.
+        name_expr = (
+            Suppress(Keyword("node", identChars=alphanums + "_-"))
+            + word_expr
+            + Suppress("{")
+        )
 
         word_expr2 = Word(initChars=printables, excludeChars=["(", ")", ",", " "])
         state_expr = ZeroOrMore(word_expr2 + Optional(Suppress(",")))
